@@ -104,7 +104,15 @@ def gen_history(rng, n):
         name = rng.choice(NAMES)
         cls = rng.choice(list(VALUES))
         v = rng.choice(VALUES[cls])
-        if k < 0.2:
+        if k < 0.3 and rng.random() < 0.3:
+            # the value is not written between quotes: it is the value of another name (`N=$SRC`, `N=${SRC}`; what that
+            # name holds then is the model's business), or its blanks are escaped one by one
+            o = "assign" if k < 0.2 else "prefixed"
+            if cls == "blank" and rng.random() < 0.4:
+                ops.append({"op": o, "name": name, "value": v, "cls": cls, "form": "escaped-blanks"})
+            else:
+                ops.append({"op": o, "name": name, "src": rng.choice(NAMES), "cls": "copied", "form": rng.choice(["copy", "copy-brace"])})
+        elif k < 0.2:
             ops.append({"op": "assign", "name": name, "value": v, "cls": cls})
         elif k < 0.3:
             ops.append({"op": "prefixed", "name": name, "value": v, "cls": cls})
@@ -117,7 +125,9 @@ def gen_history(rng, n):
             nf = rng.choice([0, 1, 2, 3, 5])
             fields = [rng.choice(["f1", "x", "y=z", "w:w", "q"]) for _ in range(nf)]
             # (the line comes from a here-string, or from the first line of a file named with `<`)
-            ops.append({"op": "read", "names": names, "fields": fields, "via": rng.choice(["here", "here", "file"])})
+            ops.append({"op": "read", "names": names, "fields": fields, "via": rng.choice(["here", "here", "file"]),
+                        # runs of blanks between the fields that all go to the last name: the remainder is kept as it is
+                        "wide": len(fields) > len(names) and rng.random() < 0.5})
         elif k < 0.95:
             t = rng.choice(["ABS:d1", "ABS:d1/d2", "ABS:d3", "d1", "d2", "d3", "..", "../..", "link", "link/d2", "d3/abslink",
                             "missing", "file", "d1/missing", None, "-", "-", ".", "ABS:", "'sp ace'", "ABS:link"])
@@ -127,12 +137,27 @@ def gen_history(rng, n):
     return ops
 
 
+def read_line_text(op):
+    names, fields = op["names"], op["fields"]
+    if not op.get("wide"):
+        return " ".join(fields)
+    head = fields[:len(names) - 1]
+    return " ".join(head + ["   ".join(fields[len(names) - 1:])])
+
+
 def render_op(op, root, k):
     o = op["op"]
-    if o == "assign":
-        return "%s=%s" % (op["name"], quote_value(op["value"]))
-    if o == "prefixed":
-        return "%s=%s vp_argv PFX%d" % (op["name"], quote_value(op["value"]), k)
+    if o in ("assign", "prefixed"):
+        form = op.get("form")
+        if form == "copy":
+            w = "$" + op["src"]
+        elif form == "copy-brace":
+            w = "${%s}" % op["src"]
+        elif form == "escaped-blanks":
+            w = op["value"].replace(" ", "\\ ")
+        else:
+            w = quote_value(op["value"])
+        return "%s=%s" % (op["name"], w) + (" vp_argv PFX%d" % k if o == "prefixed" else "")
     if o == "export":
         return "export %s=%s" % (op["name"], quote_value(op["value"]))
     if o == "unset":
@@ -140,7 +165,7 @@ def render_op(op, root, k):
     if o == "read" and op.get("via") == "file":
         return "read %s < %s" % (" ".join(op["names"]), os.path.join(root, "rd%d.txt" % k))
     if o == "read":
-        return "read %s <<< \"%s\"" % (" ".join(op["names"]), " ".join(op["fields"]))
+        return "read %s <<< \"%s\"" % (" ".join(op["names"]), read_line_text(op))
     if o == "cd":
         t = op["target"]
         if t is None:
@@ -156,7 +181,10 @@ def render_op(op, root, k):
 def op_kind(op):
     o = op["op"]
     if o in ("assign", "prefixed", "export"):
-        return "%s:value=%s" % (o, op["cls"])
+        if op.get("form") in ("copy", "copy-brace"):
+            v = op.get("value", "")
+            return "%s:value=copied-from-a-variable:%s" % (o, "with-blank" if " " in v else "with-quote-character" if ("'" in v or '"' in v) else "empty" if v == "" else "plain")
+        return "%s:value=%s%s" % (o, op["cls"], ":written-with-escaped-blanks" if op.get("form") == "escaped-blanks" else "")
     if o == "read":
         return "read:" + op.get("via", "here")
     if o == "cd":
@@ -192,6 +220,8 @@ def judge(case):
         lines.append(render_op(op, root, k))
         o = op["op"]
         e = {"k": k}
+        if op.get("form") in ("copy", "copy-brace"):
+            op["value"] = m.get(op["src"])
         if o == "assign":
             m.assign(op["name"], op["value"])
         elif o == "prefixed":
@@ -206,10 +236,10 @@ def judge(case):
             names, fields = op["names"], op["fields"]
             if op.get("via") == "file":
                 with open(os.path.join(root, "rd%d.txt" % k), "w") as f:
-                    f.write(" ".join(fields) + "\nsecond line of the file\n")
+                    f.write(read_line_text(op) + "\nsecond line of the file\n")
             for i, nme in enumerate(names[:-1]):
                 m.assign(nme, fields[i] if i < len(fields) else "")
-            m.assign(names[-1], " ".join(fields[len(names) - 1:]))
+            m.assign(names[-1], ("   " if op.get("wide") else " ").join(fields[len(names) - 1:]))
         elif o == "cd":
             t = op["target"]
             if t is not None and t.startswith("ABS:"):
@@ -307,7 +337,7 @@ def run(tier, seed):
     common.build_helpers()
     cicada = common.build_cicada("debug")
     rep = Report("C09", tier, seed)
-    rep.rule = ("random histories (<=30 ops) of NAME=v / NAME=v cmd / export / unset / read (<<< word, or < file) / cd (absolute, relative, "
+    rep.rule = ("random histories (<=30 ops) of NAME=v / NAME=v cmd (v between quotes, or with escaped blanks, or $OTHER / ${OTHER}) / export / unset / read (<<< word, or < file) / cd (absolute, relative, "
                 "'..', via symlinks, missing, non-directory, bare, '-', '.') / relative redirection over names "
                 "{A,B,AB,A_1,PWDX} and values with blanks, both quote kinds, '=', ':' and the empty string, some names "
                 "exported by the driver beforehand; a probe after every operation.  Non-trivial = at least 2 operations; "
